@@ -77,7 +77,12 @@ class References:
                                  virtual = True,
                                  version = "gfa1")
         l.connect(self._gfa)
-      self._refs["links"].append(gfapy.OrientedLine(l,orient))
+      ol = gfapy.OrientedLine(l,orient)
+      # (as the references in the fields of a connected line, the links of
+      # a path cannot be edited in place)
+      ol._block_line()
+      ol._block_orient()
+      self._refs["links"].append(ol)
       l._add_reference(self, "paths")
 
   def _initialize_segments(self):
